@@ -1,7 +1,7 @@
 """C08 - filter strings compile to the RFC 4511 filter they denote."""
 import os
 from facts import walk, callee_of, call_args, loc
-import hirq, anchors, absx, peg, cone, engine
+import hirq, anchors, absx, peg, cone, engine, unesc
 from shapes import *
 
 EXPLANATION = ("P1 the PEG extracted from the nom combinator calls of src/filter.rs (resolved callees; let-chains, alt, delimited, preceded, "
@@ -256,13 +256,14 @@ def run(ctx):
     srcs, ext = G.sources(parent)
     triage = cone.load_triage(TRIAGE)
     ctx.analysed['notes'].append({'external_callees': {k: list(v) for k, v in sorted(ext.items())}})
-    for key, lst in cone.group_keys(srcs):
-        s = lst[0]
-        cls = triage.get(key)
-        if cls and cls[0] == 'infeasible':
-            ctx.ok('P6.panic-source(reviewed-infeasible)', key, s.loc, cls[1])
-        else:
-            ctx.fail('P6.panic-source', key, s.loc, 'panic source reachable from filter parsing (%s) via %s' % (s.kind, ' -> '.join(x.split('::')[-1] for x in G.chain(parent, s.fn))))
+    # arithmetic inside the unescaper is decided by P5: every (state, byte) pair was evaluated exactly on literals with range
+    # checks (an overflow on any pair shows up there as a wrong transition), so its overflow asserts cannot fire
+    if ctx.unescaper_exact:
+        for sx in srcs:
+            if sx.kind == 'assert' and sx.key_fn == unesc.FEED and not sx.discharged:
+                sx.discharged = 'decided by P5: all %d (state, byte) pairs of the unescaper were evaluated exactly with range checks' % ctx.unescaper_exact
+    cone.judge(ctx, 'P6.panic-source', cone.group_keys(srcs), triage,
+               lambda s: 'panic source reachable from filter parsing (%s) via %s' % (s.kind, ' -> '.join(x.split('::')[-1] for x in G.chain(parent, s.fn))))
     ctx.floor('P6', 'bodies in the filter-parser cone', len(parent), 20)
 
 
@@ -377,8 +378,8 @@ def check_unescaper(ctx, f):
                     ctx.add('P5.value-passthrough', 'Value', loc(B.root), o.val[2] == (C_,), 'an ordinary byte must be passed through unchanged')
         ctx.add('P5.transition', sname, loc(B.root), got == table,
                 'from %s: (hex digit?, backslash?) -> %s; expected %s' % (sname, got, table))
-    import unesc
     n, w = unesc.check_feed(f)
+    ctx.unescaper_exact = n if (not w and n == 5120) else 0
     ctx.add('P5.hex-arithmetic-exhaustive', 'Unescaper::feed', loc(B.root), not w and n == 5120,
             'evaluated on literals for all %d (state, byte) pairs; differs from the RFC 4515 automaton on %d: %s' % (n, len(w), w[:4]))
     # the fold in `unescaped`: start in Value, push exactly the Value payloads, accept only in Value
